@@ -46,6 +46,7 @@ type seen struct {
 	HasAuth bool   `json:"has_auth"`
 	BodyLen int    `json:"body_read"`
 	BodyEOF bool   `json:"body_eof"`
+	HadBody bool   `json:"had_body"`
 	body    []byte
 	Resp    string `json:"resp"`
 }
@@ -73,6 +74,7 @@ func (s *server) RoundTrip(req *http.Request) (*http.Response, error) {
 		kind = s.tp.Script[n]
 	}
 	e.Resp = kind
+	e.HadBody = req.Body != nil && req.Body != http.NoBody
 	if req.Body != nil {
 		// how much of the body does the server consume before it answers?  A success consumes it
 		// all; challenges, redirects and errors may come early.
@@ -111,6 +113,9 @@ func (s *server) RoundTrip(req *http.Request) (*http.Response, error) {
 	case "302-same":
 		code = 302
 		h.Set("Location", fmt.Sprintf("/next%d", n))
+		if s.tp.SelfRedirect {
+			h.Set("Location", req.URL.Path) // the URL just requested
+		}
 	case "302-other":
 		code = 302
 		h.Set("Location", fmt.Sprintf("http://other.sim.test/from%d", n))
@@ -232,7 +237,11 @@ func run(tapeJSON json.RawMessage, res *core.Result) {
 		url := "http://" + tp.Host + "/app"
 		p, frame, msg := engine.Guard(func() {
 			var rdr io.Reader
-			if tp.Method == "POST" || tp.Method == "PUT" {
+			method := tp.Method
+			if method == "GET-with-body" {
+				method = "GET"
+			}
+			if tp.BodySize > 0 || tp.Method == "POST" || tp.Method == "PUT" {
 				rdr = bytes.NewReader(body)
 			}
 			switch tp.API {
@@ -247,7 +256,7 @@ func run(tapeJSON json.RawMessage, res *core.Result) {
 				opErr = spnego.SetSPNEGOHeader(cl, rq, spn)
 				headerTok = rq.Header.Get("Authorization")
 			default:
-				rq, e := http.NewRequest(tp.Method, url, rdr)
+				rq, e := http.NewRequest(method, url, rdr)
 				if e != nil {
 					opErr = e
 					return
@@ -312,7 +321,7 @@ func run(tapeJSON json.RawMessage, res *core.Result) {
 			res.Probes["challenged"]++
 			if tp.BodySize > 0 {
 				res.Probes["challenged-with-body"]++
-				if e.BodyLen < tp.BodySize && (e.Method == "POST" || e.Method == "PUT") {
+				if e.BodyLen < tp.BodySize && e.HadBody {
 					res.Probes["early-response-before-body-read"]++
 				}
 			}
@@ -344,7 +353,7 @@ func run(tapeJSON json.RawMessage, res *core.Result) {
 				}
 				viol(clause, why)
 			}
-			if nx.Method == e.Method && (e.Method == "POST" || e.Method == "PUT") {
+			if nx.Method == e.Method && e.HadBody && tp.BodySize > 0 {
 				// the retry must carry the original body
 				if nx.Resp == "200" || tp.ReadMode == "all" {
 					if !bytes.Equal(nx.body, body) {
